@@ -664,9 +664,12 @@ def walk_rule(crate, prop):
     for b, t in c_vis:
         if "recursive_export::Visit" not in " ".join(t["fn"].get("args", [])):
             r.fail(prop, "visitor-type export_recursive", "visit_dependencies is not driven with the exporting visitor", *_loc(er, b))
+    at_t = [1 for b, t in c_vis if (t["fn"].get("args") or [None])[0] == "T"]
     for b, t in c_into + c_vis:
         a0 = t["fn"]["args"][0] if t["fn"].get("args") else None
-        if a0 != "T":
+        # besides T itself, the dependencies of T::WithoutGenerics (what the written file declares and imports) may be walked *as well*
+        also = fn_matches(t, r"TS::visit_dependencies$") and a0 == "<T as TS>::WithoutGenerics" and at_t
+        if a0 != "T" and not also:
             r.fail(prop, "walk-type-mismatch export_recursive -> %s" % _short(t), "called at type %s instead of the visited type T" % a0, *_loc(er, b))
     # seen guard
     ins = [(b, t) for b, t in er.calls() if fn_matches(t, r"collections::HashSet::<T, S(, A)?>::insert$") and "TypeId" in (t.get("arg_tys") or ["", ""])[1]]
@@ -977,6 +980,7 @@ def type_arg_discipline_rule(crate, prop, rule="C11.R8"):
     """the exporter is generic code about *one* type: whoever is asked about `T` asks its helpers about `T`"""
     r = Result(rule, "inside the TS default methods, the exporter's generic functions, the dependency visitors and Dependency::from_ty, every call to another generic function of the crate, to a TS method or to TypeId::of passes the caller's own type parameter unchanged; the one projection is export_to_string's `generate_imports::<T::WithoutGenerics>` (imports are computed on the erased type, C03.R3)")
     EXC = {("export::export_to_string", "export::generate_imports"): "<T as TS>::WithoutGenerics"}
+    ALSO = {("export::recursive_export::export_recursive", "TS::visit_dependencies"): "<T as TS>::WithoutGenerics"}   # walked in addition to T (C03.R4)
     n = 0
     for b in crate.bodies:
         p0 = b.path
@@ -1001,7 +1005,7 @@ def type_arg_discipline_rule(crate, prop, rule="C11.R8"):
             plain = re.match(r"^(Self|[A-Z]\w?)$", a0) is not None
             concrete = re.match(r"^(&)?std::", a0) is not None or a0.startswith("&")
             exc = EXC.get((re.sub(r"::\{closure#\d+\}", "", p0), p))
-            ok = plain or concrete or (exc is not None and a0 == exc)
+            ok = plain or concrete or (exc is not None and a0 == exc) or ALSO.get((re.sub(r"::\{closure#\d+\}", "", p0), p)) == a0
             r.inst(fn=p0, callee=p, type_argument=a0, ok=ok, exception=bool(exc))
             if not ok:
                 fl, l = M.user_span(t["span"])
